@@ -14,6 +14,7 @@ import (
 	"math/rand"
 	"os"
 	"runtime"
+	"sort"
 	"sync"
 	"sync/atomic"
 	"testing"
@@ -287,6 +288,34 @@ func (c *c18) poolAging() {
 			x := pool.Get().(int)
 			c.ev(kit.M{"e": "ret", "p": 1, "op": "get", "r": x, "now": now()})
 			held = append(held, x)
+		case len(held) == n:
+			// the pool is at its limit and nothing is idle: a Get must wait for a Put (it may
+			// neither create a resource beyond the limit nor hand out a held one)
+			got := make(chan int, 1)
+			go func() {
+				c.ev(kit.M{"e": "inv", "p": 2, "op": "get"})
+				x := pool.Get().(int)
+				c.ev(kit.M{"e": "ret", "p": 2, "op": "get", "r": x, "now": now()})
+				got <- x
+			}()
+			select {
+			case x := <-got: // did not wait: the history says where the resource came from
+				held = append(held, x)
+			case <-time.After(2 * time.Millisecond):
+				j := c.rng.Intn(len(held))
+				y := held[j]
+				held = append(held[:j], held[j+1:]...)
+				c.ev(kit.M{"e": "inv", "p": 1, "op": "put", "r": y, "now": now()})
+				pool.Put(y)
+				c.ev(kit.M{"e": "ret", "p": 1, "op": "put"})
+				select {
+				case x := <-got:
+					held = append(held, x)
+				case <-time.After(20 * time.Second):
+					fmt.Fprintf(os.Stderr, "C18 pool Get still blocked after a Put\n%s\n", kit.Stacks())
+					os.Exit(3)
+				}
+			}
 		}
 	}
 }
@@ -403,6 +432,75 @@ func (c *c18) resourceManager() {
 			c.ev(kit.M{"e": "ret", "p": p, "op": "get", "r": id})
 		}
 	})
+	c.ev(kit.M{"e": "inv", "p": 0, "op": "close"})
+	rm.Close()
+	c.ev(kit.M{"e": "ret", "p": 0, "op": "close"})
+}
+
+// fastLog captures events with one atomic increment per log point (the tracer's mutex and
+// JSON encoding would space the callers out and hide narrow windows); the events of a round
+// are handed to the tracer in sequence order after the round.
+type fastLog struct {
+	seq atomic.Int64
+	mu  sync.Mutex
+	evs []fastEv
+}
+
+type fastEv struct {
+	seq int64
+	m   kit.M
+}
+
+func (f *fastLog) ev(m kit.M) {
+	n := f.seq.Add(1)
+	f.mu.Lock()
+	f.evs = append(f.evs, fastEv{n, m})
+	f.mu.Unlock()
+}
+
+func (f *fastLog) flush(c *c18) {
+	sort.Slice(f.evs, func(i, j int) bool { return f.evs[i].seq < f.evs[j].seq })
+	for _, e := range f.evs {
+		c.ev(e.m)
+	}
+	f.evs = f.evs[:0]
+}
+
+func spin(n int) {
+	x := 0
+	for i := 0; i < n; i++ {
+		x += i
+	}
+	_ = x
+}
+
+// resourceManagerStagger: many callers on ONE fresh key per round, staggered by tiny random
+// delays, with a very short create: callers that miss a fast-path lookup just before the first
+// creator stores its resource reach the single-flight only after that flight is gone.
+func (c *c18) resourceManagerStagger() {
+	c.ev(kit.M{"e": "reset", "kind": "rm"})
+	rm := syncx.NewResourceManager()
+	var fl fastLog
+	g := 8 + c.rng.Intn(9)
+	if g > 15 {
+		g = 15
+	}
+	c.run(g, func(p int, r *rand.Rand) {
+		spin(r.Intn(3000))
+		fl.ev(kit.M{"e": "inv", "p": p, "op": "get", "k": "a"})
+		res, err := rm.Get("a", func() (io.Closer, error) {
+			id := c.uniq()
+			fl.ev(kit.M{"e": "create", "p": p, "k": "a", "r": id})
+			spin(r.Intn(300))
+			return &c18closer{c: c, id: id}, nil
+		})
+		id := 0
+		if err == nil {
+			id = res.(*c18closer).id
+		}
+		fl.ev(kit.M{"e": "ret", "p": p, "op": "get", "r": id})
+	})
+	fl.flush(c)
 	c.ev(kit.M{"e": "inv", "p": 0, "op": "close"})
 	rm.Close()
 	c.ev(kit.M{"e": "ret", "p": 0, "op": "close"})
@@ -544,6 +642,13 @@ func TestVerifC18Trace(t *testing.T) {
 		{"spin", func() { c.spin(false) }}, {"barrier", func() { c.spin(true) }},
 		{"og", c.onceGuard}, {"dc", c.doneChan}, {"once", c.once},
 		{"poolage", c.poolAging}, {"ir", c.immutableResource},
+		{"rmstagger", func() {
+			for i := 0; i < kit.EnvInt("VERIF_STAGGER", 20); i++ {
+				c.resourceManagerStagger()
+				c.n++
+			}
+			c.n--
+		}},
 	}
 	for i := 0; i < rounds; i++ {
 		for _, s := range scen {
